@@ -104,6 +104,8 @@ def cases(rng, tier):
     prepare([])
     cs += [gen_decorated(rng, big=(tier == "thorough" and i % 50 == 0)) for i in range(150 if tier == "quick" else 2000)]
     cs += progtext_cases(rng, 150 if tier == "quick" else 3000)
+    # hundreds of expansions of one label-bearing macro in one scope: the mangled names must all differ
+    cs += family_cases(rng, [("many-expansions", G.gen_many_expansions)], 2 if tier == "quick" else 12, faults=0.0)
     return cs
 
 
